@@ -83,7 +83,7 @@ class World(object):
     def op_new(self, op):
         np = _np()
         dense = np.array(op["dense"], dtype=np.int64).reshape(op["shape"])
-        ix = build_index(dense, op["common"], readonly=bool(op.get("readonly")))
+        ix = build_index(dense, op["common"], readonly=op.get("readonly", False))
         self.push(ix, dense, "new")
 
     def op_from_array(self, op):
@@ -669,8 +669,12 @@ def sorted_rowids(n, max_len=None):
     return st.lists(st.integers(0, n - 1), unique=True, max_size=max_len or n).map(sorted)
 
 
-def make_machine(mode, rec, tier):
+def make_machine(mode, rec, tier, guard=None):
+    from .core import ShrinkGuard
+
     max_rows = 12 if tier == "quick" else 16
+    if guard is None:
+        guard = ShrinkGuard(rec, tier)
 
     class IndexMachine(RuleBasedStateMachine):
         def __init__(self):
@@ -683,9 +687,13 @@ def make_machine(mode, rec, tier):
         def do(self, op):
             if self.dead:
                 return
-            self.case["ops"].append(op)
-            if not self.world.apply(op):
+            if guard.exhausted():
                 self.dead = True
+                return
+            self.case["ops"].append(op)
+            with guard:
+                if not self.world.apply(op):
+                    self.dead = True
 
         def teardown(self):
             w = self.world
@@ -711,12 +719,20 @@ def make_machine(mode, rec, tier):
             pal = self.palette(data)
             if tail is None:
                 tail = data.draw(st.sampled_from([(), (), (1,), (2,), (3,), (4,), (2, 2), (3, 2)]), label="tail")
-            n = data.draw(st.integers(0, max_rows), label="rows") if rows is None else rows
+            if rows is None:
+                n = data.draw(st.one_of(st.integers(0, max_rows), st.integers(0, max_rows),
+                                        st.integers(0, max_rows), st.integers(24, 72)), label="rows")
+                if n > max_rows:
+                    tail = tail if len(tail) == 0 else (min(tail[0], 2),) + tuple(tail[1:2])
+                    pal = pal[:3]
+            else:
+                n = rows
             shape = (n,) + tuple(tail)
             dense = data.draw(dense_strategy(shape, pal), label="dense")
             common = data.draw(st.sampled_from(pal + [pal[0], 9]), label="common")
             return {"dense": dense, "shape": list(shape), "common": common,
-                    "readonly": data.draw(st.integers(0, 3), label="readonly") == 0}
+                    "readonly": data.draw(st.sampled_from([False, False, False, True, "strided"]),
+                                          label="rowid layout")}
 
         @initialize(data=st.data())
         def init(self, data):
@@ -981,5 +997,8 @@ def run_machine(sub, tier, seed, shard, nshards, rec, mode, examples, steps):
     n = int(math.ceil(examples[tier] / float(nshards)))
     base = hyp_settings(n)
     s = settings(base, stateful_step_count=steps[tier])
-    M = make_machine(mode, rec, tier)
-    run_state_machine_as_test(hypothesis.seed(shard_seed(seed, shard))(M), settings=s)
+    from .core import ShrinkGuard
+
+    guard = ShrinkGuard(rec, tier)
+    M = make_machine(mode, rec, tier, guard)
+    guard.run(lambda: run_state_machine_as_test(hypothesis.seed(shard_seed(seed, shard))(M), settings=s))
